@@ -222,8 +222,60 @@ theorem C12_sym_eval_of_lang {s : String} {v : Rat} (h : InLang s v) : eval s = 
   obtain ⟨ts, hl, hd⟩ := h
   simp [eval, evalChars, hl, evalToks_of_der hd]
 
-theorem C12_sym_atom {s : String} {q : Rat} (h : IsNumeral s q) : InLang (SemiringSymbolic.value s) q :=
-  ⟨[.num q], lex_numeral h.1 h.2.1 h.2.2, Der.ofF (Der.num q)⟩
+theorem compoundAux_numChars (cs : List Char) (h : ∀ c ∈ cs, isNumChar c = true) :
+    ∀ prev, PyStr.compoundAux prev cs = false := by
+  induction cs with
+  | nil => intro _; rfl
+  | cons c cs ih =>
+    intro prev
+    have hc := h c (by simp)
+    have hne : ∀ d : Char, isNumChar d = false → (c == d) = false := by
+      intro d hd
+      cases hcd : (c == d)
+      · rfl
+      · rw [beq_iff_eq] at hcd; subst hcd; rw [hc] at hd; cases hd
+    simp only [PyStr.compoundAux, hne '(' (by decide), hne '+' (by decide), hne '*' (by decide), hne '/' (by decide),
+      hne ' ' (by decide), hne ',' (by decide), hne '^' (by decide), hne '-' (by decide), Bool.false_or, Bool.false_and]
+    exact ih (fun d hd => h d (by simp [hd])) c
+
+/-- The text of a plain numeral is not the text of a compound label: `value` leaves it alone. -/
+theorem C12_sym_value_numeral {s : String} {q : Rat} (h : IsNumeral s q) : SemiringSymbolic.value s = s := by
+  unfold SemiringSymbolic.value PyStr.isCompound
+  rw [compoundAux_numChars _ h.2.1]; rfl
+
+theorem C12_sym_atom {s : String} {q : Rat} (h : IsNumeral s q) : InLang (SemiringSymbolic.value s) q := by
+  rw [C12_sym_value_numeral h]
+  exact ⟨[.num q], lex_numeral h.1 h.2.1 h.2.2, Der.ofF (Der.num q)⟩
+
+/-- A compound label is kept as ONE factor: `value` brackets its text (the repaired behaviour: `(0.2+0.1)::a` used to
+    contribute the bare text `0.2+0.1`, so that a product `0.2+0.1*0.5` denoted another number). -/
+theorem C12_sym_value_compound {s : String} (h : PyStr.isCompound s = true) :
+    SemiringSymbolic.value s = "(" ++ s ++ ")" := by
+  unfold SemiringSymbolic.value; rw [h]; rfl
+
+/-- A label that is a sum of two numerals is one factor of the value of the sum. -/
+theorem C12_sym_value_sum {a b : String} {x y : Rat} (ha : IsNumeral a x) (hb : IsNumeral b y) :
+    InLang (SemiringSymbolic.value (a ++ "+" ++ b)) (x + y) := by
+  have hc : PyStr.isCompound (a ++ "+" ++ b) = true := by
+    unfold PyStr.isCompound
+    simp only [String.toList_append]
+    rw [show "+".toList = ['+'] from rfl]
+    generalize a.toList = l
+    generalize '\x00' = p
+    induction l generalizing p with
+    | nil => simp [PyStr.compoundAux]
+    | cons c cs ih =>
+      have := ih c
+      simp only [List.cons_append, PyStr.compoundAux, Bool.or_eq_true]
+      right; simpa using this
+  rw [C12_sym_value_compound hc]
+  have la := lex_numeral ha.1 ha.2.1 ha.2.2
+  have lb := lex_numeral hb.1 hb.2.1 hb.2.2
+  refine ⟨.lp :: [.num x] ++ .plus :: [.num y] ++ [.rp], ?_, Der.ofF (Der.add (Der.ofF (Der.num x)) (Der.ofF (Der.num y)))⟩
+  have h1 := lex_cat lb (d := ')') (dd := [.rp]) rfl (by decide) lex_nil
+  have h3 := lex_cat la (d := '+') (dd := [.plus]) rfl (by decide) h1
+  have h4 := lex_delim (d := '(') (dd := [.lp]) rfl (by decide) h3
+  simpa [String.toList_append] using h4
 
 theorem C12_sym_plus {a b : String} {x y : Rat} (ha : InLang a x) (hb : InLang b y) :
     InLang (SemiringSymbolic.plus a b) (x + y) := by
